@@ -118,6 +118,34 @@ func runC14(c *Ctx) {
 	}
 	r.Check("C14.no-text-flow", "parseStackPCs/PC append sites", m.Pos(psp.Pos()), nApp == 1, fmt.Sprintf("%d", nApp))
 
+	// ---- relocation: appended PC = parsed pc − parent's sentinel + this process' sentinel (+1 for traps) ----
+	c15Length(c, m, "C14.name-cap")
+	for _, cs := range callsIn(psp, "builtin:append") {
+		cl := cs.(*ssa.Call)
+		_, el, ok := appendedElems(cl)
+		if !ok || len(el) != 1 {
+			continue
+		}
+		forms, why := relocForms(el[0], map[ssa.Value]bool{}, 0)
+		bad := why
+		nGood := 0
+		for _, f := range forms {
+			pc, par, ch := f.l.coef["pc"], f.l.coef["parent"], f.l.coef["child"]
+			others := len(f.l.coef) - boolInt(pc != 0) - boolInt(par != 0) - boolInt(ch != 0)
+			switch {
+			case others == 0 && pc == 1 && par == -1 && ch == 1 && (f.l.k == 0 || f.l.k == 1):
+				nGood++
+			case others == 0 && pc == 1 && par == 0 && ch == 0 && (f.l.k == 0 || f.l.k == 1) && f.initial:
+				// the loop-entry value of a carried offset (no sentinel seen yet); parseStackPCs refuses
+				// to enter a goroutine without a sentinel (C14.control-dependence inventory)
+			default:
+				bad += " " + f.l.String()
+			}
+		}
+		r.Check("C14.relocation", "parseStackPCs/appended PC = pc − parentSentinel + childSentinel (+1 after sigpanic)", m.Pos(cl.Pos()), bad == "" && nGood >= 1,
+			fmt.Sprintf("modular linear form of the appended value over {pc parsed from the frame line, sentinel read from the report, this process' sentinel()}: %d conforming forms; non-conforming:%s", nGood, bad))
+	}
+
 	// ---- control dependence inventory -----------------------------------------------------
 	nCond := 0
 	for _, fn := range WithClosures(psp) {
@@ -373,4 +401,182 @@ func constOnlyCondition(cond ssa.Value) (bool, string) {
 		return true, "constant"
 	}
 	return false, fmt.Sprintf("%T", cond)
+}
+
+func boolInt(b bool) int {
+	if b {
+		return 1
+	}
+	return 0
+}
+
+// relocForm is one alternative value of an integer expression, as a linear form (modulo 2^64)
+// over the atoms pc, parent, child; initial marks alternatives that took the loop-entry
+// constant of a loop-carried phi.
+type relocForm struct {
+	l       lin
+	initial bool
+}
+
+// relocForms enumerates the alternative linear forms of v in parseStackPCs: phis are expanded
+// (self-references through the loop are dropped), +/− are followed, conversions are transparent.
+func relocForms(v ssa.Value, busy map[ssa.Value]bool, depth int) ([]relocForm, string) {
+	if depth > 24 {
+		return nil, " expression too deep"
+	}
+	switch x := v.(type) {
+	case *ssa.Const:
+		if k, ok := intConst(x); ok {
+			return []relocForm{{l: linConst(k)}}, ""
+		}
+	case *ssa.Convert:
+		return relocForms(x.X, busy, depth+1)
+	case *ssa.ChangeType:
+		return relocForms(x.X, busy, depth+1)
+	case *ssa.BinOp:
+		if x.Op == token.ADD || x.Op == token.SUB {
+			a, wa := relocForms(x.X, busy, depth+1)
+			b, wb := relocForms(x.Y, busy, depth+1)
+			if wa+wb != "" {
+				return nil, wa + wb
+			}
+			sign := int64(1)
+			if x.Op == token.SUB {
+				sign = -1
+			}
+			var out []relocForm
+			for _, fa := range a {
+				for _, fb := range b {
+					out = append(out, relocForm{fa.l.add(fb.l, sign), fa.initial || fb.initial})
+				}
+			}
+			if len(out) > 64 {
+				return nil, " too many alternatives"
+			}
+			return out, ""
+		}
+	case *ssa.Phi:
+		if busy[x] {
+			return nil, ""
+		}
+		busy[x] = true
+		defer delete(busy, x)
+		var out []relocForm
+		for i, e := range x.Edges {
+			fs, w := relocForms(e, busy, depth+1)
+			if w != "" {
+				return nil, w
+			}
+			_, isConst := e.(*ssa.Const)
+			fromOutside := !x.Block().Dominates(x.Block().Preds[i])
+			for _, f := range fs {
+				if isConst && fromOutside {
+					f.initial = true
+				}
+				out = append(out, f)
+			}
+		}
+		return out, ""
+	case *ssa.UnOp:
+		if x.Op == token.MUL {
+			if a, ok := x.X.(*ssa.Alloc); ok {
+				// the variable whose address is handed to Sscanf("sentinel %x", &v)
+				if allocPassedTo(a, "fmt.Sscanf") {
+					return []relocForm{{l: linTerm("parent")}}, ""
+				}
+			}
+		}
+	case *ssa.Extract:
+		if cl, ok := x.Tuple.(*ssa.Call); ok && x.Index == 0 {
+			n := calleeName(&cl.Call)
+			if n == "strconv.ParseUint" {
+				return []relocForm{{l: linTerm("pc")}}, ""
+			}
+			// a local closure / helper that returns strconv.ParseUint's result
+			if fn := closureOrStatic(&cl.Call); fn != nil && returnsCallTo(fn, "strconv.ParseUint") {
+				return []relocForm{{l: linTerm("pc")}}, ""
+			}
+		}
+	case *ssa.Call:
+		if calleeName(&x.Call) == "internal/crashmonitor.sentinel" {
+			return []relocForm{{l: linTerm("child")}}, ""
+		}
+	}
+	return []relocForm{{l: linTerm("other:" + shortDesc(describe(v)))}}, ""
+}
+
+// allocPassedTo: the address of a (possibly boxed in an interface) is an argument of a call to callee.
+func allocPassedTo(a *ssa.Alloc, callee string) bool {
+	seen := map[ssa.Value]bool{}
+	var walk func(v ssa.Value, depth int) bool
+	walk = func(v ssa.Value, depth int) bool {
+		if depth > 6 || seen[v] {
+			return false
+		}
+		seen[v] = true
+		for _, u := range referrers(v) {
+			switch t := u.(type) {
+			case *ssa.MakeInterface:
+				if walk(t, depth+1) {
+					return true
+				}
+			case *ssa.Store:
+				// stored into the varargs backing array
+				if ia, ok := t.Addr.(*ssa.IndexAddr); ok && t.Val == v {
+					if walk(ia.X, depth+1) {
+						return true
+					}
+				}
+			case *ssa.Slice:
+				if walk(t, depth+1) {
+					return true
+				}
+			case *ssa.Call:
+				if calleeName(&t.Call) == callee {
+					return true
+				}
+			}
+		}
+		return false
+	}
+	return walk(a, 0)
+}
+
+// closureOrStatic resolves the called function when it is a static callee or a closure made in place.
+func closureOrStatic(cc *ssa.CallCommon) *ssa.Function {
+	if f := staticCallee(cc); f != nil {
+		return f
+	}
+	switch v := cc.Value.(type) {
+	case *ssa.MakeClosure:
+		return v.Fn.(*ssa.Function)
+	case *ssa.Function:
+		return v
+	}
+	return nil
+}
+
+// returnsCallTo: every return of fn with a non-constant first result returns callee's result.
+func returnsCallTo(fn *ssa.Function, callee string) bool {
+	n := 0
+	for _, b := range fn.Blocks {
+		ret, ok := b.Instrs[len(b.Instrs)-1].(*ssa.Return)
+		if !ok || len(ret.Results) == 0 {
+			continue
+		}
+		v := ret.Results[0]
+		if _, isC := v.(*ssa.Const); isC {
+			continue
+		}
+		ex, ok := v.(*ssa.Extract)
+		if !ok {
+			return false
+		}
+		cl, ok := ex.Tuple.(*ssa.Call)
+		if !ok || calleeName(&cl.Call) != callee {
+			return false
+		}
+		n++
+	}
+	return n >= 1
 }
